@@ -65,7 +65,7 @@ add("gating",
            "date", "imap4flags", "copy", "mailbox", "relational", "regex", "nonesuch", "gt"),
     quick=5, thorough=6)
 add("nesting", ids("if", "not", "anyof", "true", "keep", "else"),
-    punct=[("lp", ""), ("rp", ""), ("lc", ""), ("rc", ""), ("semi", ""), ("comma", "")], quick=9, thorough=12)
+    punct=[("lp", ""), ("rp", ""), ("lc", ""), ("rc", ""), ("semi", ""), ("comma", "")], quick=11, thorough=13)
 add("lists",
     ids("require", "if", "exists", "header", "redirect", "stop")
     + strs("a", "b", "@innerq") + [("ml", "m")] + tags(":is"),
